@@ -505,7 +505,9 @@ C12(T) ==
                                           \/ later[1].p.chk = FileChecksum(IF T.ev[i].pre.fileSize < 0 \/ PutBefore(T, i).mdOnly THEN "NULL" ELSE T.cfg.chk, f, sent)))
                 THEN B("next-pdu-after-cancel-is-not-the-eof-cancel-for-the-bytes-sent", i) ELSE {})
                \* every further copy of that EOF (re-sent by the positive ACK procedure) is the same EOF
-               \cup (IF later # <<>> /\ later[1].p.t = "EOF"
+               \* (not judged in runs whose driver changes the source file on disk mid-transfer: the modular checksum covers
+               \* the file as it is when the copy is made, observation F17)
+               \cup (IF later # <<>> /\ later[1].p.t = "EOF" /\ ~(\E j \in OfSide(T, "S") : T.ev[j].call = "env")
                         /\ \E k \in DOMAIN later : /\ later[k].p.t = "EOF" /\ later[k].p.cond = "CANCEL_REQUEST_RECEIVED"
                                                     /\ (later[k].p.size # later[1].p.size \/ later[k].p.chk # later[1].p.chk)
                      THEN B("re-sent-eof-cancel-differs-from-the-first", i) ELSE {})
